@@ -29,7 +29,19 @@ PLAN = dict(
          "additional input of MAX_BYTES+1 bytes (refusal leaves the state and the interval count untouched, or served as specified); nil entropy "
          "source (crypto/rand): counts, no error, destination filled, nothing else written, two identically built wrappers differ. "
          "c17.reader: 6-14 Read calls of sizes {0,1,max-1,max,max+1,5max+3,random} on the reader wrapper with a scripted "
-         "entropy source. c17.faults (fault enumeration): configuration x {5 mon.FaultKind, stream ends} x source call index 0..6 "
+         "entropy source. c17.multi (several automatic reseeds inside ONE Read, test-level interval of 8 requests): every configuration x every wrapper "
+         "constructor that exists for it (New{Hash,Hmac,Ctr}DrbgPrng, NewNist*DrbgPrng, NewGm*DrbgPrng) x strength class, after 0-7 one-request Reads: "
+         "one Read through the rest of the interval + (k-1) whole intervals + r bytes, k in {0,1,2,3,5} (one block per request - GM Hash/CTR -: also 8, 17), "
+         "r in {0,1,max-1,max,max+1} (r=0: the Read ends exactly where the reseed is due and must not draw entropy; the follow-up Read starts with "
+         "the reseed); configurations with 2048-byte requests outside SM3/SHA-256/SHA-512/ciphers get one (k,r) diagonal; histories of 5-9 Reads that "
+         "end at / start at / cross 1,2,3,5 reseed points, empty Reads at a reseed point; level two (1024 requests): GM Hash/CTR wrappers one Read "
+         "across two reseed points (thorough: four 2048-byte configurations, 2 MiB per interval); two or three wrappers of different configurations "
+         "over ONE entropy source read in turns to or across 1-3 reseed points each; per Read: n, nil error, bytes of the model chain, and "
+         "the entropy source read exactly as often and for as many bytes as the model reads its own (cross-checked by arithmetic); entropy faults: the "
+         "source fails at the j-th of the k reseeds of ONE Read ((k,j) in {(2,1),(2,2),(3,1),(3,2),(3,3),(5,4)}; 6 persistent shapes as c17.faults + 5 "
+         "transient ones: one failing call, healthy afterwards): error required, at most the model's bytes counted, exactly j source reads; then the next "
+         "Read fails again (persistent) or reseeds and continues exactly as the model whose generator served the requests before the failure (transient). "
+         "c17.faults (fault enumeration): configuration x {5 mon.FaultKind, stream ends} x source call index 0..6 "
          "(0 entropy, 1 nonce, 2..5 reseeds, 6 control). c17.timerule (quick and thorough, avx2 only, one case): generators and reader "
          "wrappers of all 40 configurations are created, the 6 s test-level interval is slept through once, then GM generators must refuse, "
          "accept a Reseed and serve again (bytes equal to the model), NIST twins must serve, and the wrappers' Read must succeed with exactly one "
@@ -45,6 +57,8 @@ PLAN = dict(
     + both("c17.levels", ["avx2", "ia32"], shards=(2, 8), floor=200, deadline="120s", env=_GC)
     + both("c17.reader", _CFG + ["ia32"], shards=(1, 4), floor=300, env=_GC)
     + both("c17.faults", _CFG, shards=(1, 2), floor=1000, env=_GC)
+    # k reseeds inside one Read call: the loop of DrbgPrng.Read is pure Go and the same in every tier - default dispatch, purego build, 32-bit build
+    + both("c17.multi", ["avx2", "purego", "ia32"], shards=(2, 4), floor=1500, env=_GC)
     + both("c17.options", ["avx2", "ia32"], shards=(1, 1), floor=80),
     exhaustive_note="c17.faults enumerates completely: 28 configurations (the three hash functions added for table 2 are left out: the wrapper's treatment of a failing source does not depend on the hash; thorough: x every strength class of the wrapper) x 6 fault shapes x every entropy-source call index of a fixed "
                     "Read script that crosses the reseed interval four times (level fault_enumeration for that workload)",
@@ -60,6 +74,10 @@ PLAN = dict(
                  "the per-request maximum is the one the package documents and announces through MaxBytesPerRequest() for all three "
                  "mechanisms (2048 bytes; one hash/cipher block for Hash and CTR in GM mode), which lies below SP 800-90A's 2^19 bits: a larger "
                  "request must be refused without touching buffer or state (when the reseed is due as well, either error is accepted)",
+                 "the wrapper draws entropy lazily, as the package's Read is written: one read of strength bytes when (and only when) a chained "
+                 "request is refused for want of a reseed - a Read that ends exactly where the next reseed is due, or asks for 0 bytes there, draws "
+                 "nothing (c17.levels and c17.multi compare the reads of the entropy source with the model's call by call); after a failed Read "
+                 "the generator has served the requests before the failure and still waits for its reseed",
                  "GM/T 0105 defines no HMAC generator: in GM mode the HMAC constructor may or may not apply the minimum entropy/nonce length "
                  "that its Reseed documents",
                  "inputs longer than the package's MAX_BYTES (2^27) but within SP 800-90A's 2^35 bits may be refused or served as specified; "
@@ -79,7 +97,9 @@ CLAIM = dict(
          "Reseed are checked in both directions; every call gets its arguments cut from one dirty caller buffer with spare capacity in random "
          "order, must leave that buffer unchanged outside the output slice, and must not depend on it afterwards (it is inverted after every call); "
          "Read must deliver exactly the requested bytes, equal to the model chaining requests and "
-         "reseeding from the scripted entropy source. Level exploration for histories and reader sizes; fault_enumeration for the entropy "
+         "reseeding from the scripted entropy source - also when one Read needs 2, 3, 5 (8, 17) reseeds, ends or starts exactly at a reseed point, "
+         "or the source fails at a later reseed of the same Read (error; after a transient failure the next Read continues with the model) -, and must "
+         "read the entropy source exactly as often as the model. Level exploration for histories and reader sizes; fault_enumeration for the entropy "
          "source failing or short at every call index (error required, no panic, persistent failure stays an error).",
     design_ref="DESIGN.md 6 (C17)",
     note="trusted: harness/ref/drbg (+ref/sm3, ref/sm4, Go stdlib hashes/AES; OpenSSL 3.0 as the source of the known answers for SHA-224, SHA-384, "
